@@ -549,23 +549,57 @@ func joinStr(s []string) string { return strings.Join(s, ", ") }
 func HeldEdges(fn *ssa.Function, re string) []Edge {
 	rx := regexp.MustCompile(re)
 	var out []Edge
-	for _, b := range fn.Blocks {
+	for _, b := range blocksIP(fn) {
 		iff := lastIf(b)
 		if iff == nil {
 			continue
 		}
-		if matchEither(rx, normCond(iff.Cond, true)) {
-			out = append(out, Edge{b, 0})
-		} else if s, ok := normCondInlined(iff.Cond, true); ok && matchEither(rx, s) {
-			out = append(out, Edge{b, 0})
-		}
-		if matchEither(rx, normCond(iff.Cond, false)) {
-			out = append(out, Edge{b, 1})
-		} else if s, ok := normCondInlined(iff.Cond, false); ok && matchEither(rx, s) {
-			out = append(out, Edge{b, 1})
+		for idx, pol := range []bool{true, false} {
+			if condHeldMatches(fn, b, iff.Cond, pol, rx) {
+				out = append(out, Edge{b, idx})
+			}
 		}
 	}
 	return out
+}
+
+// condHeldMatches: does the condition (with polarity pol) at the end of block b match rx? For a block of a new helper
+// (ip.go) that fn's family calls from several places the parameters are rendered as the arguments of each of those
+// call sites in turn and the condition must match for every one of them.
+func condHeldMatches(fn *ssa.Function, b *ssa.BasicBlock, cond ssa.Value, pol bool, rx *regexp.Regexp) bool {
+	one := func() bool {
+		if matchEither(rx, normCond(cond, pol)) {
+			return true
+		}
+		s, ok := normCondInlined(cond, pol)
+		return ok && matchEither(rx, s)
+	}
+	h := b.Parent()
+	if h == fn || !NewFns[h] || len(helperSites[h]) < 2 {
+		return one()
+	}
+	n := 0
+	for _, c := range helperSites[h] {
+		if !inFamily(fn, c) || len(c.Common().Args) != len(h.Params) {
+			continue
+		}
+		n++
+		old := vstrSubst
+		sub := map[ssa.Value]string{}
+		for k, v := range old {
+			sub[k] = v
+		}
+		for i, pa := range h.Params {
+			sub[pa] = vstr(c.Common().Args[i])
+		}
+		vstrSubst = sub
+		ok := one()
+		vstrSubst = old
+		if !ok {
+			return false
+		}
+	}
+	return n > 0
 }
 
 // DominatedByCond: every path from entry to an instruction of T takes an edge
@@ -646,7 +680,7 @@ func HeldEdgesAcyclic(fn *ssa.Function, re string) []Edge {
 func IfsMatching(fn *ssa.Function, name, re string) Ev {
 	rx := regexp.MustCompile(re)
 	ev := Ev{Name: name, Fn: fn}
-	for _, b := range fn.Blocks {
+	for _, b := range blocksIP(fn) {
 		iff := lastIf(b)
 		if iff == nil {
 			continue
